@@ -184,6 +184,21 @@ def run_case(c):
                 bad("rerun_differs", "%s on a second temperature grid differs between a re-used ThermalProperties object and a fresh one (max diff %.3e)" % (
                     nm, np.abs(a_[fin] - b_[fin]).max() if fin.any() and a_.shape == b_.shape else np.nan), quantity=nm, **feat)
                 break
+        # the temperatures in another order (descending / shuffled, 0 K not first): every value is a function of its own temperature only
+        perm = np.random.default_rng(c["seed"] + 5).permutation(len(temps)) if len(temps) > 2 else np.arange(len(temps))[::-1]
+        tperm = ThermalProperties(StubMesh(freqs, weights, eig), cutoff_frequency=cutoff, pretend_real=c["pretend_real"], band_indices=bi,
+                                  is_projection=c["projection"], classical=c["classical"])
+        tperm.temperatures = np.array(temps, float)[perm]
+        tperm.run(lang=c["lang"])
+        _, Fp, Sp, Cp = [np.array(a, float) for a in tperm.thermal_properties]
+        obs["n_permuted_temperatures"] = obs.get("n_permuted_temperatures", 0) + 1
+        for nm, a_, b_ in (("F", Fp, F_[perm]), ("S", Sp, S_[perm]), ("Cv", Cp, C_[perm])):
+            fin = np.isfinite(a_) & np.isfinite(b_)
+            if a_.shape != b_.shape or (np.isfinite(a_) != np.isfinite(b_)).any() or (fin.any() and np.abs(a_[fin] - b_[fin]).max() > 1e-12 * max(np.abs(b_[fin]).max(), 1e-300)):
+                k_ = int(np.argmax(np.isfinite(a_) != np.isfinite(b_))) if (np.isfinite(a_) != np.isfinite(b_)).any() else int(np.argmax(np.abs(np.where(fin, a_ - b_, 0))))
+                bad("temperature_order", "%s at T=%.6g K is %r when the temperatures are given in another order (position %d of %d), %r in ascending order" % (
+                    nm, float(np.array(temps)[perm][k_]), float(a_[k_]), k_, len(a_), float(b_[k_])), quantity=nm, **feat)
+                break
         tp.temperatures = temps
         tp.run(lang=c["lang"])
         other = ThermalProperties(StubMesh(freqs, weights, eig), cutoff_frequency=cutoff, pretend_real=c["pretend_real"], band_indices=bi,
